@@ -16,6 +16,7 @@ LEVEL_TEXT = ("Real CLI runs over generated filter/redirect/demultiplexing optio
 LEVEL_TEXT += " Duplicate destinations: the same file requested for two outputs (two record outputs, record and text output, both mates, a shared first file, standard output and '-', one file under two spellings, a path equal to an expanded {name} file) must either be refused or hold exactly the records the report counts."
 LEVEL_TEXT += ' The indented per-read lines of the text report are compared with the JSON figures; the second file of an output pair on standard output must parse as records and hold what the report counts; the JSON report must not share a path with a record output; a redirect file must not double as a demultiplexed file.'
 LEVEL_TEXT += ' Paired --revcomp scenarios (with-adapter counts against what was removed from the written mates), output files aliased through symbolic links, a JSON report equal to an expanded {name} file.'
+LEVEL_TEXT += ' With a trimmer active the quality-/poly-A-trimmed totals must be present (0, not null).'
 LEVEL_NOTE = ("Trusted base: independent FASTQ parser, unique ids, regular expressions for the text report. For demultiplexing with "
               "--untrimmed-output both accountings of the untrimmed file (output or discard_untrimmed) are accepted.")
 VARIANTS = {"quick": ["plain"], "thorough": ["plain"]}
